@@ -29,4 +29,15 @@ def MeasurementWF (code : List Tok) (m : Measurement) : Prop :=
     (∃ tk, code[k]? = some tk ∧ tk.isName = true ∧ m.name = tk.val) ∧
     1 ≤ m.len ∧ m.len ≤ countDistinct (((code.drop i).take (j + 1 - i)).map (·.line))
 
+/-- a clause of the lexer contract beyond `RawOk`: no keyword (`kind = 1`) and no name token
+(`kind = 2`) begins with a newline character.  True of every Pygments lexer (newlines are
+`Text`/`Whitespace` tokens, or lie inside string and comment tokens); needed for "the start
+column points at a character of its line" (`C05text.start_column_past_line` shows that the model
+does not exclude such a token on its own). -/
+def NamesStartInLine (raw : List RawTok) : Prop :=
+  ∀ r ∈ raw, r.kind = 1 ∨ r.kind = 2 → r.val.head? ≠ some 10
+
+instance (raw : List RawTok) : Decidable (NamesStartInLine raw) := by
+  unfold NamesStartInLine; exact inferInstance
+
 end CL
